@@ -6,6 +6,7 @@ import (
 
 	"github.com/privacybydesign/gabi"
 	"github.com/privacybydesign/gabi/big"
+	"github.com/privacybydesign/gabi/revocation"
 )
 
 // C07: proof randomness is never reused.
@@ -225,6 +226,42 @@ func genC07(g *Rng, tier string, emit func(Op)) {
 			doOp(col, creds, ir, g.intn(600), ctx, nonce, nil)
 		}
 		emit(col.op("sequential"))
+	}
+	// the process-wide fast generator under contention: randomisers drawn concurrently are distinct
+	for _, ng := range []int{4, 32} {
+		per := 3000
+		if tier == "thorough" {
+			per = 40000
+		}
+		out := make([][]string, ng)
+		var wg sync.WaitGroup
+		for i := 0; i < ng; i++ {
+			wg.Add(1)
+			go func(i int) {
+				defer wg.Done()
+				l := make([]string, per)
+				for k := range l {
+					l[k] = revocation.NewProofRandomizer().Go().Text(16)
+				}
+				out[i] = l
+			}(i)
+		}
+		wg.Wait()
+		seen := map[string]bool{}
+		dups := 0
+		for _, l := range out {
+			for _, x := range l {
+				if seen[x] {
+					dups++
+				}
+				seen[x] = true
+			}
+		}
+		res := "fresh"
+		if dups > 0 {
+			res = fmt.Sprintf("reused %d", dups)
+		}
+		emit(Op{"op": "recorded", "class": fmt.Sprintf("concurrent-randomizers-%d", ng), "label": "fresh", "nomodel": true, "result": res, "draws": ng * per})
 	}
 	for _, ng := range goroutines {
 		creds, ir := mkCreds()
